@@ -73,8 +73,8 @@ Definition sem_close (m o : op) (e : env) : bool :=
 
 (* the constructor invariants the theorems assume must hold of every real tree *)
 Definition comp_invariants (c : compcase) : bool :=
-  built_ok (cc_b c) && forallb (fun kr => built_ok (snd kr)) (cc_map c)
-  && match cc_observed c with Some o => built_ok o | None => true end.
+  built_ok (cc_b c) && renames_okb (cc_b c) && forallb (fun kr => built_ok (snd kr) && renames_okb (snd kr)) (cc_map c)
+  && match cc_observed c with Some o => built_ok o && renames_okb o | None => true end.
 
 Definition comp_ok (c : compcase) : bool :=
   comp_invariants c &&
